@@ -431,3 +431,61 @@ Arguments inline_step {atom tagname} t a tcs cs_new.
 Arguments inline_conj_with {atom tagname} tags invert rec cs cs_new.
 Arguments inline_dnf_with {atom tagname} tags invert rec d.
 Arguments inline_dnf {atom tagname} tags invert fuel d.
+
+(* ------------------------------------------------------------------ *)
+(* Sub-queries                                                        *)
+(* ------------------------------------------------------------------ *)
+(* A sub-query is searched like the main query but without sort order (sorter = nil: every
+   result is appended), without limit and without id restriction; with the empty key list
+   [sorting_less] is constantly false and [insert_sorted] appends, so this is the same code. *)
+Definition sub_search (v : variant) (fs : list (file * list qpart)) : list entry :=
+  a_streams (search_files v [] 0 (fun _ => true) 0 fs acc0).
+
+(* resultData.matchingQueryPart[p]: does the result entry match part p (filters of part p of its file) *)
+Definition entry_matches_part (fs : list (file * list qpart)) (e : entry) (p : nat) : bool :=
+  match nth_error fs (fst (e_pos e)) with
+  | Some (_, parts) =>
+      match nth_error parts p with
+      | Some qp => qp_possible qp && qp_filter qp (snd (e_pos e))
+      | None => false
+      end
+  | None => false
+  end.
+
+(* searchContext.allowedSubQueries: a list of maps sub-query -> allowed positions in that sub-query's
+   result list; a combination of sub-query results is allowed iff some map allows every component.
+   Sub-queries are numbered; a map is a function (only the sub-queries in play are ever looked at). *)
+Definition selmap := nat -> list nat.
+Definition subsel := list selmap.
+
+Definition sel_upd (m : selmap) (sq : nat) (v : list nat) : selmap :=
+  fun k => if Nat.eqb k sq then v else m k.
+
+(* subQuerySelection.remove for one map: the combinations with component sqs[i] in forbidden[i] for all i
+   are taken out; what stays is split into maps again *)
+Fixpoint remove_one (sqs : list nat) (forbidden : list (list nat)) (m : selmap) : subsel :=
+  match sqs, forbidden with
+  | sq :: sqs', f :: forbidden' =>
+      let old := m sq in
+      let rem := filter (fun x => mem_nat x f) old in
+      let keep := filter (fun x => negb (mem_nat x f)) old in
+      match rem with
+      | [] => [m]                                   (* remove.IsZero(): the map stays as it is *)
+      | _ =>
+          match keep with
+          | [] => remove_one sqs' forbidden' m      (* keep.IsZero(): look at the next sub-query *)
+          | _ => sel_upd m sq keep :: remove_one sqs' forbidden' (sel_upd m sq rem)
+          end
+      end
+  | _, _ => []                                      (* forbidden in every component: dropped *)
+  end.
+
+Definition sel_remove (sqs : list nat) (forbidden : list (list nat)) (sel : subsel) : subsel :=
+  flat_map (remove_one sqs forbidden) sel.
+
+Definition sel_empty (sel : subsel) : bool := match sel with [] => true | _ => false end.
+
+(* the filters of one part on one stream: every relation to sub-queries takes its forbidden
+   combinations out of the same searchContext; the part matches iff something is left *)
+Definition rel_filters (ops : list (list nat * list (list nat))) (sel : subsel) : bool :=
+  negb (sel_empty (fold_left (fun s op => sel_remove (fst op) (snd op) s) ops sel)).
